@@ -518,6 +518,9 @@ func (t *Tr) applyContract(ct *Contract, key string, args []ssa.Value, res ssa.V
 	for _, en := range ct.Ensures {
 		s, err := env.evalClause(en.E)
 		if err != nil {
+			if ct.Trusted && strings.Contains(err.Error(), "unknown type") {
+				continue // a fact about a type whose package is not loaded in this run
+			}
 			efail("%s:%d: ensures of %s: %v", en.File, en.Line, key, err)
 		}
 		t.assumeCl(s, false)
@@ -731,7 +734,17 @@ func (t *Tr) applyModifies(ct *Contract, env *Env, key string) {
 			}
 			continue
 		}
-		t.havocLocation(m, env, key)
+		func() {
+			defer func() {
+				if r := recover(); r != nil {
+					if ee, ok := r.(evalErr); ok && ct.Trusted && strings.Contains(string(ee), "unknown type") {
+						return // a location of a type whose package is not loaded in this run: no such object here
+					}
+					panic(r)
+				}
+			}()
+			t.havocLocation(m, env, key)
+		}()
 	}
 }
 
